@@ -199,6 +199,14 @@ fn check_case(cx: &Ctx, key: &str, tup: &[usize]) -> CaseOut {
     // (4) values: the covering step's interpolant = sol(t) of the plain dense run; accuracy bound
     let psol = pl.sol();
     let naccpt = psol.naccpt.max(1) as f64;
+    let rk4_end_error = if cx.method == Method::RK4 {
+        psol.t.iter().zip(&psol.y).fold(0.0f64, |a, (t, y)| match cx.prob.exact(cx.cfg.x0, &cx.cfg.y0, *t) {
+            Some(ex) => y.iter().zip(&ex).fold(a, |b, (u, v)| b.max((u - v).abs())),
+            None => a,
+        })
+    } else {
+        0.0
+    };
     for (t, y) in got.iter().zip(got_y.iter()) {
         if let Ok(ys) = psol.sol(*t) {
             let scale = 1.0 + y.iter().fold(0.0f64, |m, v| m.max(v.abs()));
@@ -216,7 +224,8 @@ fn check_case(cx: &Ctx, key: &str, tup: &[usize]) -> CaseOut {
             for i in 0..ex.len() {
                 let tol = cx.cfg.atol.at(i) + cx.cfg.rtol.at(i) * ynorm;
                 let bound = 50.0 * cx.kappa * naccpt * tol + 1e-13;
-                let bound = if cx.method == Method::RK4 { 1e-6 } else { bound };
+                // RK4 has no tolerance: its interpolated values are as good as its own step endpoints
+                let bound = if cx.method == Method::RK4 { 10.0 * rk4_end_error + 1e-10 } else { bound };
                 if (y[i] - ex[i]).abs() > bound {
                     viol!("accuracy", format!("value at t={:e} component {} off by {:e} (bound {:e})", t, i, (y[i] - ex[i]).abs(), bound));
                 }
@@ -257,7 +266,11 @@ pub fn run_check(replay: Option<Value>) -> i32 {
     for (mi, m) in M6.iter().enumerate() {
         for backward in [false, true] {
             for (si, sc) in scenes(backward).into_iter().enumerate() {
-                let cfg = scene_cfg(*m, &sc, 1e-5);
+                let mut cfg = scene_cfg(*m, &sc, 1e-5);
+                if *m == Method::RK4 {
+                    // a fixed step that does not divide the interval: the last step is shortened
+                    cfg.first_step = Some((sc.xend - sc.x0) / 73.3);
+                }
                 let plain = match plain_run(&sc.prob, &cfg) {
                     Some(p) => p,
                     None => {
